@@ -93,3 +93,53 @@ Example C02_example :
             VMap KtStr EAny false [(VStr false (bs "n"), VFloat false false (FFin (mkDec 3 0)))]])])
   = Ok (VDec (mkDec 2 0)).
 Proof. eexists. split; [vm_compute; reflexivity|]. vm_compute. reflexivity. Qed.
+
+(** End to end (Proofs/E2E2.v): whole filter queries `$.a[@.k.F(p)]…` on a document whose key `a`
+    holds an array (slice or Go array, any element type, directly or behind one pointer) of rows that
+    are objects in ANY carrier, the compared field a number in ANY Go carrier; the threshold a literal or
+    a path `$.lim` into the document (bound to the document, not to the row).  [rows_doc] bundles these
+    hypotheses; [flags F qs qp] are the truth values of the comparison on the rows' source values;
+    [keep rows bs] (C02) is the sub-list selected by bs, in order. *)
+From Coq Require Import QArith.
+From Mpath.Proofs Require C06 C06b C17 E2E E2E2.
+Import Mpath.Proofs.C06 Mpath.Proofs.C06b Mpath.Proofs.C17 Mpath.Proofs.E2E Mpath.Proofs.E2E2.
+
+Theorem C02_E2E2_filter_compare :
+  forall (uni : uclass) (eng : engines) (fuel : nat) (inv me xq : bool) (xu us : str) (cur : gv) (a k : str) (linv lisf : bool) (lus fus : str) (pinv pisf pme kq : bool) (ku : str) (finv : bool) (fu pus : str) (F : string) (p : param) (doc arr : gv) (rows gs : list gv) (ds : list dec) (qs : list Q) (db : dec) (qp : Q), In F comparison_names -> rows_doc a k doc arr rows gs ds qs -> (is_nil arr = true -> xq = true) -> param_denotes doc p (RNum db) -> DecQ.dval db == qp -> eval uni eng (S (S (S (S (S (S (S (S fuel)))))))) (NPath (filter_path inv me a xq xu (filter_op linv lisf LAnd [pred_path pinv pisf pme k kq ku finv F [p] fu pus] lus fus) [] us)) cur doc = Ok (VSlice EAny false (keep rows (flags F qs qp))) /\ Forall2 (fun (q : Q) (b : bool) => b = true <-> cmp_rel F q qp) qs (flags F qs qp) /\ subseq (keep rows (flags F qs qp)) rows.
+Proof. exact Mpath.Proofs.E2E2.E2E2_filter_compare. Qed.
+Print Assumptions C02_E2E2_filter_compare.
+
+Theorem C02_E2E2_filter_compare_literal :
+  forall (uni : uclass) (eng : engines) (fuel : nat) (inv me xq : bool) (xu us : str) (cur : gv) (a k : str) (linv lisf : bool) (lus fus : str) (pinv pisf pme kq : bool) (ku : str) (finv : bool) (fu pus : str) (F : string) (p : dec) (doc arr : gv) (rows gs : list gv) (ds : list dec) (qs : list Q) (qp : Q), In F comparison_names -> rows_doc a k doc arr rows gs ds qs -> (is_nil arr = true -> xq = true) -> DecQ.dval p == qp -> eval uni eng (S (S (S (S (S (S (S (S fuel)))))))) (NPath (filter_path inv me a xq xu (filter_op linv lisf LAnd [pred_path pinv pisf pme k kq ku finv F [FPNum p] fu pus] lus fus) [] us)) cur doc = Ok (VSlice EAny false (keep rows (flags F qs qp))) /\ Forall2 (fun (q : Q) (b : bool) => b = true <-> cmp_rel F q qp) qs (flags F qs qp) /\ subseq (keep rows (flags F qs qp)) rows.
+Proof. exact Mpath.Proofs.E2E2.E2E2_filter_compare_literal. Qed.
+Print Assumptions C02_E2E2_filter_compare_literal.
+
+Theorem C02_E2E2_filter_compare_root_argument :
+  forall (uni : uclass) (eng : engines) (fuel : nat) (inv me xq : bool) (xu us : str) (cur : gv) (a k : str) (linv lisf : bool) (lus fus : str) (pinv pisf pme kq : bool) (ku : str) (finv : bool) (fu pus : str) (ainv ame aq : bool) (au aus : str) (F : string) (lim : str) (glim : gv) (dlim : dec) (doc arr : gv) (rows gs : list gv) (ds : list dec) (qs : list Q) (qp : Q), In F comparison_names -> rows_doc a k doc arr rows gs ds qs -> (is_nil arr = true -> xq = true) -> obj_row lim doc glim -> num_carrier glim dlim -> source_value glim = Some qp -> eval uni eng (S (S (S (S (S (S (S (S fuel)))))))) (NPath (filter_path inv me a xq xu (filter_op linv lisf LAnd [pred_path pinv pisf pme k kq ku finv F [FPPath (key_path ainv ame lim aq au aus)] fu pus] lus fus) [] us)) cur doc = Ok (VSlice EAny false (keep rows (flags F qs qp))) /\ Forall2 (fun (q : Q) (b : bool) => b = true <-> cmp_rel F q qp) qs (flags F qs qp) /\ subseq (keep rows (flags F qs qp)) rows.
+Proof. exact Mpath.Proofs.E2E2.E2E2_filter_compare_root_argument. Qed.
+Print Assumptions C02_E2E2_filter_compare_root_argument.
+
+Theorem C02_E2E2_filter_count :
+  forall (uni : uclass) (eng : engines) (fuel : nat) (inv me xq : bool) (xu us : str) (cur : gv) (a k : str) (linv lisf : bool) (lus fus : str) (pinv pisf pme kq : bool) (ku : str) (finv : bool) (fu pus : str) (cinv : bool) (cu : str) (F : string) (p : param) (doc arr : gv) (rows gs : list gv) (ds : list dec) (qs : list Q) (db : dec) (qp : Q), In F comparison_names -> rows_doc a k doc arr rows gs ds qs -> (is_nil arr = true -> xq = true) -> param_denotes doc p (RNum db) -> DecQ.dval db == qp -> let n := Datatypes.length (filter (fun q : Q => cmp_holds F q qp) qs) in eval uni eng (S (S (S (S (S (S (S (S fuel)))))))) (NPath (filter_path inv me a xq xu (filter_op linv lisf LAnd [pred_path pinv pisf pme k kq ku finv F [p] fu pus] lus fus) [count_op cinv cu] us)) cur doc = Ok (VDec {| coef := Z.of_nat n; dexp := 0 |}) /\ DecQ.dval {| coef := Z.of_nat n; dexp := 0 |} == inject_Z (Z.of_nat n).
+Proof. exact Mpath.Proofs.E2E2.E2E2_filter_count. Qed.
+Print Assumptions C02_E2E2_filter_count.
+
+Theorem C02_E2E2_filter_then_key :
+  forall (uni : uclass) (eng : engines) (fuel : nat) (inv me xq : bool) (xu us : str) (cur : gv) (a k : str) (linv lisf : bool) (lus fus : str) (pinv pisf pme kq : bool) (ku : str) (finv : bool) (fu pus : str) (tq : bool) (tu : str) (F : string) (p : param) (doc arr : gv) (rows gs : list gv) (ds : list dec) (qs : list Q) (db : dec) (qp : Q), In F comparison_names -> rows_doc a k doc arr rows gs ds qs -> is_nil arr = false -> param_denotes doc p (RNum db) -> DecQ.dval db == qp -> Exists (fun q : Q => cmp_rel F q qp) qs -> eval uni eng (S (S (S (S (S (S (S (S fuel)))))))) (NPath (filter_path inv me a xq xu (filter_op linv lisf LAnd [pred_path pinv pisf pme k kq ku finv F [p] fu pus] lus fus) [PIdent k tq tu] us)) cur doc = Ok (VSlice EAny false (map VDec (keep ds (flags F qs qp)))) /\ Forall2 (fun (g : gv) (d : dec) => exists q : Q, source_value g = Some q /\ DecQ.dval d == q) (keep gs (flags F qs qp)) (keep ds (flags F qs qp)).
+Proof. exact Mpath.Proofs.E2E2.E2E2_filter_then_key. Qed.
+Print Assumptions C02_E2E2_filter_then_key.
+
+Theorem C02_E2E2_filter_then_key_none :
+  forall (uni : uclass) (eng : engines) (fuel : nat) (inv me xq : bool) (xu us : str) (cur : gv) (a k : str) (linv lisf : bool) (lus fus : str) (pinv pisf pme kq : bool) (ku : str) (finv : bool) (fu pus : str) (tq : bool) (tu : str) (F : string) (p : param) (doc arr : gv) (rows gs : list gv) (ds : list dec) (qs : list Q) (db : dec) (qp : Q), In F comparison_names -> rows_doc a k doc arr rows gs ds qs -> is_nil arr = false -> param_denotes doc p (RNum db) -> DecQ.dval db == qp -> Forall (fun q : Q => ~ cmp_rel F q qp) qs -> eval uni eng (S (S (S (S (S (S (S (S fuel)))))))) (NPath (filter_path inv me a xq xu (filter_op linv lisf LAnd [pred_path pinv pisf pme k kq ku finv F [p] fu pus] lus fus) [PIdent k tq tu] us)) cur doc = Err EKeyNotFound.
+Proof. exact Mpath.Proofs.E2E2.E2E2_filter_then_key_none. Qed.
+Print Assumptions C02_E2E2_filter_then_key_none.
+
+Theorem C02_E2E2_filter_or_and :
+  forall (uni : uclass) (eng : engines) (fuel : nat) (inv me xq : bool) (xu us : str) (cur : gv) (a k : str) (linv lisf : bool) (lus fus : str) (linv' lisf' : bool) (lus' fus' : str) (pinv pisf pme kq : bool) (ku : str) (finv : bool) (fu pus : str) (pinv' pisf' pme' kq' : bool) (ku' : str) (finv' : bool) (fu' pus' : str) (F1 F2 : string) (p1 p2 : param) (doc arr : gv) (rows gs : list gv) (ds : list dec) (qs : list Q) (db1 db2 : dec) (qp1 qp2 : Q), In F1 comparison_names -> In F2 comparison_names -> rows_doc a k doc arr rows gs ds qs -> (is_nil arr = true -> xq = true) -> param_denotes doc p1 (RNum db1) -> DecQ.dval db1 == qp1 -> param_denotes doc p2 (RNum db2) -> DecQ.dval db2 == qp2 -> (eval uni eng (S (S (S (S (S (S (S (S fuel)))))))) (NPath (filter_path inv me a xq xu (filter_op linv lisf LOr [pred_path pinv pisf pme k kq ku finv F1 [p1] fu pus; pred_path pinv' pisf' pme' k kq' ku' finv' F2 [p2] fu' pus'] lus fus) [] us)) cur doc = Ok (VSlice EAny false (keep rows (flags_or F1 F2 qs qp1 qp2))) /\ Forall2 (fun (q : Q) (b : bool) => b = true <-> cmp_rel F1 q qp1 \/ cmp_rel F2 q qp2) qs (flags_or F1 F2 qs qp1 qp2)) /\ (eval uni eng (S (S (S (S (S (S (S (S fuel)))))))) (NPath (filter_path inv me a xq xu (filter_op linv lisf LAnd [pred_path pinv pisf pme k kq ku finv F1 [p1] fu pus; pred_path pinv' pisf' pme' k kq' ku' finv' F2 [p2] fu' pus'] lus fus) [] us)) cur doc = Ok (VSlice EAny false (keep rows (flags_and F1 F2 qs qp1 qp2))) /\ Forall2 (fun (q : Q) (b : bool) => b = true <-> cmp_rel F1 q qp1 /\ cmp_rel F2 q qp2) qs (flags_and F1 F2 qs qp1 qp2)) /\ (is_nil arr = false -> eval uni eng (S (S (S (S (S (S (S (S fuel)))))))) (NPath (filter_path inv me a xq xu (filter_op linv lisf LAnd [pred_path pinv pisf pme k kq ku finv F1 [p1] fu pus] lus fus) [filter_op linv' lisf' LAnd [pred_path pinv' pisf' pme' k kq' ku' finv' F2 [p2] fu' pus'] lus' fus'] us)) cur doc = Ok (VSlice EAny false (keep rows (flags_and F1 F2 qs qp1 qp2))) /\ eval uni eng (S (S (S (S (S (S (S (S fuel)))))))) (NPath (filter_path inv me a xq xu (filter_op linv lisf LAnd [pred_path pinv pisf pme k kq ku finv F1 [p1] fu pus] lus fus) [filter_op linv' lisf' LAnd [pred_path pinv' pisf' pme' k kq' ku' finv' F2 [p2] fu' pus'] lus' fus'] us)) cur doc = eval uni eng (S (S (S (S (S (S (S (S fuel)))))))) (NPath (filter_path inv me a xq xu (filter_op linv lisf LAnd [pred_path pinv pisf pme k kq ku finv F1 [p1] fu pus; pred_path pinv' pisf' pme' k kq' ku' finv' F2 [p2] fu' pus'] lus fus) [] us)) cur doc).
+Proof. exact Mpath.Proofs.E2E2.E2E2_filter_or_and. Qed.
+Print Assumptions C02_E2E2_filter_or_and.
+
+Theorem C02_E2E2_storage_invariant :
+  forall (uni : uclass) (eng : engines) (fuel : nat) (inv me xq : bool) (xu us : str) (cur : gv) (a k : str) (linv lisf : bool) (lus fus : str) (pinv pisf pme kq : bool) (ku : str) (finv : bool) (fu pus : str) (cinv : bool) (cu : str) (tq : bool) (tu : str) (F : string) (p p' : param) (doc doc' arr arr' : gv) (rows rows' gs gs' : list gv) (ds ds' : list dec) (qs qs' : list Q) (db db' : dec) (qp qp' : Q), In F comparison_names -> rows_doc a k doc arr rows gs ds qs -> rows_doc a k doc' arr' rows' gs' ds' qs' -> (is_nil arr = true -> xq = true) -> (is_nil arr' = true -> xq = true) -> Forall2 Qeq qs qs' -> param_denotes doc p (RNum db) -> param_denotes doc' p' (RNum db') -> DecQ.dval db == qp -> DecQ.dval db' == qp' -> qp == qp' -> exists bs : list bool, bs = flags F qs qp /\ bs = flags F qs' qp' /\ eval uni eng (S (S (S (S (S (S (S (S fuel)))))))) (NPath (filter_path inv me a xq xu (filter_op linv lisf LAnd [pred_path pinv pisf pme k kq ku finv F [p] fu pus] lus fus) [] us)) cur doc = Ok (VSlice EAny false (keep rows bs)) /\ eval uni eng (S (S (S (S (S (S (S (S fuel)))))))) (NPath (filter_path inv me a xq xu (filter_op linv lisf LAnd [pred_path pinv pisf pme k kq ku finv F [p'] fu pus] lus fus) [] us)) cur doc' = Ok (VSlice EAny false (keep rows' bs)) /\ eval uni eng (S (S (S (S (S (S (S (S fuel)))))))) (NPath (filter_path inv me a xq xu (filter_op linv lisf LAnd [pred_path pinv pisf pme k kq ku finv F [p] fu pus] lus fus) [count_op cinv cu] us)) cur doc = eval uni eng (S (S (S (S (S (S (S (S fuel)))))))) (NPath (filter_path inv me a xq xu (filter_op linv lisf LAnd [pred_path pinv pisf pme k kq ku finv F [p'] fu pus] lus fus) [count_op cinv cu] us)) cur doc' /\ (is_nil arr = false -> is_nil arr' = false -> eval uni eng (S (S (S (S (S (S (S (S fuel)))))))) (NPath (filter_path inv me a xq xu (filter_op linv lisf LAnd [pred_path pinv pisf pme k kq ku finv F [p] fu pus] lus fus) [PIdent k tq tu] us)) cur doc = key_result (keep ds bs) /\ eval uni eng (S (S (S (S (S (S (S (S fuel)))))))) (NPath (filter_path inv me a xq xu (filter_op linv lisf LAnd [pred_path pinv pisf pme k kq ku finv F [p'] fu pus] lus fus) [PIdent k tq tu] us)) cur doc' = key_result (keep ds' bs)) /\ Forall2 (fun d d' : dec => DecQ.dval d == DecQ.dval d') (keep ds bs) (keep ds' bs).
+Proof. exact Mpath.Proofs.E2E2.E2E2_storage_invariant. Qed.
+Print Assumptions C02_E2E2_storage_invariant.
